@@ -3470,6 +3470,7 @@ def c17_integrate_2d(symmetric):
                + trapz_i s[i][0]  * int_{-g_0}^{inf} pdf(-g_i, y) dy    + trapz_i s[i][-1] * int_0^{-g_1} pdf(-g_i, y) dy        (gamma2 out of range)
                + trapz_j s[0][j]  * int_{-g_0}^{inf} pdf(x, -g_j) dx    + trapz_j s[-1][j] * int_0^{-g_1} pdf(x, -g_j) dx        (gamma1 out of range)
                + s[-1][-1] * II(g1 in [0,-g_1], g2 in [0,-g_1]) + s[0][-1] * II(g1 in [-g_0,inf], g2 in [0,-g_1]) + s[-1][0] * II(g1 in [0,-g_1], g2 in [-g_0,inf])
+               [+ s[0][0] * II(g1, g2 in [-g_0,inf]): separate obligation `both-deleterious-corner`, a recorded known finding -- the code omits it]
     (a symmetric density may reuse the gamma1 marginals for gamma2 and the (0,-1) corner weight for the (-1,0) corner);  exterior_int=False keeps only the first line."""
     oid = 'C17/Cache2D_mod.py:Cache2D.integrate/%s' % ('symmetric' if symmetric else 'asymmetric')
     fn = 'dadi/DFE/Cache2D_mod.py::Cache2D.integrate'
@@ -3599,6 +3600,11 @@ def c17_integrate_2d(symmetric):
             spec = spec + s_[1][1] * nn + s_[0][1] * dn + s_[1][0] * nd
             out.append(struct(tag + '.integrals', not missing, 'every tail integral is requested with the documented integrand and range' if not missing else 'not requested: %s; requested: %s' % (missing, sorted(integrals.values())[:6]), fn))
             out.append(prove_eq(tag + '.assembly', pc, got, theta * spec, fn))
+            # the quadrature of the whole quadrant also has a both-strongly-deleterious corner, II(g1 in [-g_0,inf], g2 in [-g_0,inf]) * s[0][0]:
+            # the statement's 'edge and corner tail terms' includes it (otherwise a density with mass there does not integrate to one)
+            dd = find(('dbl', f_yx, mn, inf, mn, inf))
+            out.append(struct(tag + '.both-deleterious-corner', dd is not None, 'the corner int int_{gamma1, gamma2 >= -g_0} pdf, weighted by s[0][0], is %s' % ('requested' if dd is not None else 'never requested: mass beyond the most deleterious cached gamma in both coordinates is dropped'), fn,
+                              finding_key='C17/bounded/integrate2d-both-deleterious-corner-omitted'))
         return out
     return go()
 
